@@ -21,6 +21,10 @@ func c01Scenarios(tier core.Tier) []scenario {
 			Menu: chain.Menu{Recv: true, Sync: true, WalkSome: true, Play: true, Restart: true, Submit: []string{"sA"}, Mine: 1}},
 		{Name: "c01.3way", Universe: "U-3way-honest", Depth: 5 + d, Orcs: orcs,
 			Menu: chain.Menu{Recv: true, Sync: true, WalkAll: true, Play: true, Restart: true}},
+		// what the node had pending when a block arrived must not show in the state at that block: a pending
+		// parent with two pending children, and a peer block (a1) that conflicts with the parent
+		{Name: "c01.family", Universe: "U-3way-honest", Depth: 5 + d, Orcs: orcs,
+			Menu: chain.Menu{Recv: true, Sync: true, Play: true, Restart: true, Submit: []string{"pP", "pC1", "pC2"}, Blocks: []string{"a1", "b1"}}},
 	}
 }
 
